@@ -38,6 +38,8 @@ def run(ctx, report):
                                  "(relativize on); nothing else raises"),
         "units": ("R-GRID", "2", "every written length is a percentage with at most two decimals; with relativize off an "
                                  "absolute layout is not written at all"),
+        "arith": ("R-GRID", "1", "every absolute length (px, em, pt, cells; also with three decimals) is written as the exact "
+                                 "percentage of the video size it denotes, to two decimals"),
         "fit": ("R-GRID", "3", "fit_to_screen: the box is cut at the 90% edge, a missing width reaches exactly that edge, a "
                                "width that fits is unchanged"),
     })
